@@ -14,13 +14,16 @@ SI == << A(145, "indirect_register", FALSE, FALSE), A(146, "indirect_indexed_reg
 \* same-type alternatives that accept the same text: definition order decides
 SJ == << A(161, "indirect_register", FALSE, FALSE), A(162, "indirect_register", TRUE, FALSE) >>
 SK == << A(178, "numeric", FALSE, FALSE), A(177, "numeric", FALSE, FALSE), A(179, "register", FALSE, FALSE) >>
-SL == << A(193, "numeric", FALSE, FALSE), A(194, "register", FALSE, FALSE), A(195, "register_pp", FALSE, FALSE), A(196, "register_at", FALSE, FALSE) >>
+SL == << A(193, "numeric", FALSE, FALSE), A(194, "register", FALSE, FALSE), A(195, "register_pp", FALSE, FALSE), A(196, "register_at", FALSE, FALSE),
+         A(197, "register_prepp", FALSE, FALSE) >>
+SR == << A(198, "register_prepp", FALSE, FALSE), A(199, "register", FALSE, FALSE) >>
 SM == << A(241, "numeric", FALSE, FALSE), A(242, "indirect_register_pre", FALSE, FALSE), A(243, "indirect_register", FALSE, FALSE) >>
 SN == << A(225, "numeric_va", FALSE, FALSE), A(226, "register", FALSE, FALSE) >>
 SO == << A(249, "numeric16", FALSE, FALSE), A(250, "register", FALSE, FALSE) >>
+SQ == << A(233, "numeric", FALSE, FALSE), A(234, "indexed_register2", FALSE, FALSE), A(235, "register", FALSE, FALSE) >>
 \* a numeric operand code on its own (0..255): 300 selects it and is then out of range
 SP == << A(251, "numeric_bytecode", FALSE, FALSE) >>
-Sets1 == {SA, SB, SC, SD, SE, SF, SG, SH, SI, SJ, SK, SL, SM, SN, SO, SP}
+Sets1 == {SA, SB, SC, SD, SE, SF, SG, SH, SI, SJ, SK, SL, SM, SN, SO, SP, SQ, SR}
 V(spec, sets, dis) == [spec |-> spec, sets |-> sets, dis |-> dis]
 SpReg == << A(200, "register", FALSE, FALSE) >>
 SpNum == << A(201, "numeric", FALSE, FALSE) >>
@@ -34,7 +37,7 @@ Pool1 == { V(sp, <<s>>, {}) : sp \in {<<>>, <<SpReg>>, <<SpNum>>, <<SpInd, SpReg
          \* one-element disallowed combinations: the register alternative of the set is excluded
          \cup { V(sp, <<s>>, {<<18>>, <<82>>, <<113>>, <<226>>, <<194>>}) : sp \in {<<>>, <<SpNum>>}, s \in {SA, SE, SG, SN, SL} }
 \* "void": an operand slot with nothing in it (a stray, doubled or leading comma) - no alternative accepts it and it still counts as a slot
-Texts1 == { <<>>, <<"num", "void">>, <<"void", "num">>, <<"r", "void">>, <<"void", "r">> } \cup { <<t>> : t \in {"r", "r2", "[r]", "[r+n]", "[n]", "[[n]]", "r+n", "key", "num", "lab", "{n}", "hexa", "chra", "r++", "@r", "-[r]", "bignum"} }
+Texts1 == { <<>>, <<"num", "void">>, <<"void", "num">>, <<"r", "void">>, <<"void", "r">> } \cup { <<t>> : t \in {"r", "r2", "[r]", "[r+n]", "[n]", "[[n]]", "r+n", "key", "num", "lab", "{n}", "hexa", "chra", "r++", "@r", "-[r]", "bignum", "r+key", "++r"} }
 \* two-operand variants
 Sp2 == << A(210, "register", FALSE, FALSE), A(211, "numeric", FALSE, FALSE) >>
 Pool2 == { V(sp, <<s1, s2>>, d) : sp \in {<<>>, <<Sp2>>}, s1 \in {SA, SE, SC}, s2 \in {SA, SD, SH},
